@@ -85,6 +85,10 @@ WRONG = [NONE, ["bool", 1], ["bool", 0], I(0), I(1), I(-1), I(2), I(255), I(6553
          ["list", [F(0.5)]], ["list", [B(b"x")]], ["tuple", [I(1), I(2)]], ["tuple", [NONE, NONE, NONE]],
          ["tuple", [S("d41d8cd98f00b204e9800998ecf8427e"), NONE, NONE]], ["tuple", [S("zz"), NONE, NONE]],
          ["tuple", [S("d4"), NONE, NONE]], ["tuple", [S("d41d8cd98f00b204e9800998ecf8427"), NONE, NONE]],
+         ["tuple", [S("d41d8cd98f00b204e9800998ecf8427e\n"), NONE, NONE]], ["tuple", [S(" d41d8cd98f00b204e9800998ecf8427e"), NONE, NONE]],
+         ["tuple", [S("d41d8cd9 8f00b204 e9800998 ecf8427e"), NONE, NONE]], ["tuple", [S("d41d8cd98f00b204e9800998ecf8427e\r\n"), NONE, NONE]],
+         ["tuple", [NONE, S("da39a3ee5e6b4b0d3255bfef95601890afd80709\t"), NONE]],
+         ["dict", [[S("md5"), S("d41d8cd98f00b204e9800998ecf8427e\n")]]],
          ["tuple", [NONE, S("da39a3ee5e6b4b0d3255bfef95601890afd80709"), S("e3b0c44298fc1c149afbf4c8996fb92427ae41e4649b934ca495991b7852b855")]],
          ["tuple", [I(5), NONE, NONE]], ["tuple", [S("é" * 32), NONE, NONE]], ["list", [S("D41D8CD98F00B204E9800998ECF8427E"), NONE, NONE]],
          ["dict", [[S("a"), I(1)]]], ["dict", []], REC0, ["pathobj", "posix", enc_str("/a/b")], ["pathobj", "windows", enc_str("c:\\x")],
@@ -111,6 +115,8 @@ def _unpre(spec):
     """the raw candidate behind a pre-converted one (`["pre", type, spec]` = an instance of the field type made from spec)"""
     while isinstance(spec, list) and spec and spec[0] == "pre":
         spec = spec[2]
+    if isinstance(spec, list) and spec and spec[0] == "prelist":
+        return ["list", [_unpre(x) for x in spec[2]]]
     if isinstance(spec, list) and spec and spec[0] in ("list", "tuple"):
         return [spec[0], [_unpre(x) for x in spec[1]]]
     return spec
@@ -118,6 +124,14 @@ def _unpre(spec):
 
 def _build(spec):
     k = spec[0]
+    if k == "prelist":
+        # a typed list instance of element type spec[1] (falls back to the plain list if that type refuses a value)
+        raw = [_build(x) for x in spec[2]]
+        try:
+            from flow.record.base import fieldtype
+            return fieldtype(spec[1] + "[]")(raw)
+        except Exception:
+            return raw
     if k == "pre":
         # an element / value that already IS an instance of the field type (taken from another record, a slice of a
         # typed list, ...): the isinstance shortcuts of typedlist._convert and Record.__setattr__ keep it as it is.
@@ -161,7 +175,21 @@ def _pool_for(r, t):
             pool.append(["list", [["pre", base, heads[i % 3]], w]])
         pool.append(["list", [["pre", base, heads[0]], ["pre", base, heads[1]]]])
         pool.append(["tuple", [["pre", base, heads[2]], heads[0], ["pre", base, heads[1]]]])
-    elif not t.endswith("[]") and base not in ("record", "dynamic", "stringlist", "dictlist", "net.ipv4.Subnet"):
+    if t.endswith("[]"):
+        # a typed list taken from a field of ANOTHER element type (records of two types / versions sharing a field name):
+        # every element has to be converted to this field's element type - or the value refused
+        foreign = {"uint16": ["uint32", "varint", "filesize"], "uint32": ["varint", "uint16"], "varint": ["uint16", "uint32"],
+                   "string": ["bytes"], "bytes": ["string"], "path": ["string"], "uri": ["string"],
+                   "boolean": ["varint", "uint16"], "float": ["varint"], "net.ipaddress": ["string", "varint"],
+                   "net.tcp.Port": ["uint32", "varint"]}.get(base, [])
+        for ft in foreign:
+            for vals in ([V.gen_value(r, ft, none_chance=0) for _ in range(2)],
+                         {"uint32": [I(70000), I(5)], "varint": [I(-5), I(1), I(2 ** 40)], "filesize": [I(65536)],
+                          "bytes": [B(b"caf\xe9"), B(b"ok")], "string": [S("not-an-address"), S("1.2.3.4")],
+                          "uint16": [I(2), I(0)]}.get(ft, [])):
+                if vals:
+                    pool.append(["prelist", ft, vals])
+    if not t.endswith("[]") and base not in ("record", "dynamic", "stringlist", "dictlist", "net.ipv4.Subnet"):
         pool += [["pre", base, V.gen_value(r, base, none_chance=0)] for _ in range(2)]
     if base == "digest":
         pool = [p for p in pool if not (p[0] == "dict" and any(dec_str(kk[1]) in ("md5", "sha1", "sha256") for kk, _ in p[1] if kk[0] == "str"))]
@@ -445,7 +473,7 @@ def oracle(case, obs):
                 return f"{t} list holds an element that is not of the element type"
             base = t[:-2]
             o = obs["value"]
-            els = _unpre(case["value"])[1] if case["value"][0] in ("list", "tuple") else None
+            els = _unpre(case["value"])[1] if _unpre(case["value"])[0] in ("list", "tuple") else None
             if els is not None and o[0] == "list" and len(o[2]) == len(els):
                 for e_spec, e_obs in zip(els, o[2]):
                     f = _check_value(base, e_spec, e_obs)
